@@ -118,8 +118,9 @@ def enum_decl(e, vis="pub ", docs=False, derive=True):
     elif e.get("repr64"):
         lines.append("#[repr(u64)]")
     lines.append("%senum %s {" % (vis, e["name"]))
-    for v in e["variants"]:
-        if docs:
+    for vi, v in enumerate(e["variants"]):
+        doc_after = docs and v["cfg"] is not None and vi % 2 == 1      # documentation written after the #[cfg] attribute
+        if docs and not doc_after:
             lines.append("    /// variant %s" % v["name"])
         for a in v.get("pre_attrs", []):
             lines.append("    " + a)
@@ -127,6 +128,8 @@ def enum_decl(e, vis="pub ", docs=False, derive=True):
             lines.append("    #[cfg(all())]")
         elif v["cfg"] is False:
             lines.append("    #[cfg(any())]")
+        if doc_after:
+            lines.append("    /// variant %s" % v["name"])
         for a in v.get("post_attrs", []):
             lines.append("    " + a)
         if v.get("discr_text") is not None:
@@ -167,6 +170,9 @@ def bitfield_decl(case, vis=None, docs=False):
     body.append("#[bitfield(%s)]" % ", ".join(args))
     for extra in case.get("extra_attrs", []):
         body.append(extra)
+    if case.get("unit_struct") and not case["fields"]:
+        body.append("%sstruct %s;" % (vis, case["name"]))
+        return lines + body
     body.append("%sstruct %s {" % (vis, case["name"]))
     for f in case["fields"]:
         f2 = f
@@ -436,6 +442,13 @@ def subject_module(case):
         "Some(%s)" % hex(case["default"]["value"]) if case["default"] else "None",
         "true" if has_builder else "false", "true" if case["debug"] else "false",
         ", ".join(rstr(t) for t in case.get("tags", []))))
+    if case.get("user_impls"):
+        L.append("    impl ::core::convert::From<u%d> for %s { fn from(v: u%d) -> Self { %s::new_with_raw_value(v) } }" % (n, T, n, T))
+        L.append("    impl ::core::convert::From<%s> for u%d { fn from(v: %s) -> Self { v.raw_value() } }" % (T, n, T))
+        L.append("    impl ::core::cmp::PartialEq for %s { fn eq(&self, o: &Self) -> bool { self.raw_value() == o.raw_value() } }" % T)
+        L.append("    impl ::core::fmt::Display for %s { fn fmt(&self, f: &mut ::core::fmt::Formatter<'_>) -> ::core::fmt::Result { f.write_str(\"reg\") } }" % T)
+        L.append("    impl ::core::hash::Hash for %s { fn hash<H: ::core::hash::Hasher>(&self, h: &mut H) { self.raw_value().hash(h) } }" % T)
+        L.append("    impl ::core::ops::Not for %s { type Output = Self; fn not(self) -> Self { self } }" % T)
     L.append("    pub struct G(%s);" % T)
     L.append("    pub fn ctor() -> Box<dyn Subject> { Box::new(G(%s::ZERO)) }" % T)
     L.append("    fn is_copy<X: Copy>() {}")
